@@ -323,9 +323,54 @@ def case_dpss_internal(h, N, NW, k, n, cplx):
         h.claim_eq("eigenvalue[%d]" % i, r1[2][i], r2[2][i])
 
 
+def case_mt_recompute(h, N, n, cplx, change):
+    """a MultiTapering object that computes its own Slepian tapers: estimate, change NW / k, call again: the second
+    estimate, its weights and eigenvalues are those of a fresh object with the new parameters (C routine run concretely)"""
+    S = sp()
+    MT = _sys.modules['spectrum.mtm']
+    x = h.vec('x', N, cplx)
+    orig = MT.dpss
+    if h.is_sym():
+        def concrete_dpss(*a, **kw):
+            c0 = ctx()
+            set_ctx(None)
+            try:
+                return orig(*a, **kw)
+            finally:
+                set_ctx(c0)
+        MT.dpss = concrete_dpss
+    try:
+        p = S.MultiTapering(x, NW=2, k=2, NFFT=n, method='unity', scale_by_freq=False)
+        p()
+        NW2, k2 = (2, 3) if change == 'k' else ((2.5, 2) if change == 'NW' else (2.5, 3))
+        p.NW, p.k = NW2, k2
+        p()
+        got = p.psd
+        f = S.MultiTapering(x, NW=NW2, k=k2, NFFT=n, method='unity', scale_by_freq=False)
+        f()
+        expect = f.psd
+    finally:
+        MT.dpss = orig
+    if len(got) != len(expect):
+        h.fail("len", "%d vs %d" % (len(got), len(expect)))
+        return
+    for j in range(len(got)):
+        h.claim_eq("psd[%d] after the change = fresh object" % j, got[j], expect[j])
+    if len(p.eigenvalues) != len(f.eigenvalues):
+        h.fail("eigenvalues", "%d eigenvalues, fresh object has %d" % (len(p.eigenvalues), len(f.eigenvalues)))
+        return
+    for i in range(len(f.eigenvalues)):
+        h.claim_eq("eigenvalue[%d] = fresh" % i, p.eigenvalues[i], f.eigenvalues[i])
+
+
 def cases(tier, seed):
     q = tier == 'quick'
     out = []
+    for change in ('k', 'NW', 'both'):
+        for cplx in ((False,) if q else (False, True)):
+            out.append(Case("class:own-tapers:recompute-after-%s-change:%s:N=8:NFFT=8" % (change, 'cx' if cplx else 're'), case_mt_recompute,
+                            dict(N=8, n=8, cplx=cplx, change=change), timeout=120 if q else 600, max_paths=16, feas_timeout=3,
+                            wall=500 if q else 2400))
     T = dict(timeout=120 if q else 600, max_paths=16, feas_timeout=3, wall=500 if q else 2400)
     for method in ('unity', 'eigen'):
         for cplx in (False, True):
